@@ -163,6 +163,7 @@ func workerMain(args []string) int {
 		nt = props.DefaultNonTrivial
 	}
 
+	lastPartial := time.Now()
 	runOne := func(i uint64) {
 		rs := core.RunSeed(*seed, p.ID, eng.Name, i)
 		if jf != nil {
@@ -309,6 +310,19 @@ func workerMain(args []string) int {
 			runOne(i)
 			if len(sum.Trouble) >= 5 {
 				break
+			}
+			if *outPath != "" && time.Since(lastPartial) > 3*time.Second {
+				// light checkpoint (no digest sets): if this process is brought down by
+				// a later run, the orchestrator keeps what was counted and found so far
+				lastPartial = time.Now()
+				cp := *sum
+				cp.Digests, cp.Scheds, cp.States = nil, nil, nil
+				cp.WallS = time.Since(t0).Seconds()
+				if b, err := json.Marshal(&cp); err == nil {
+					if os.WriteFile(*outPath+".partial.tmp", b, 0o644) == nil {
+						os.Rename(*outPath+".partial.tmp", *outPath+".partial")
+					}
+				}
 			}
 		}
 	}
